@@ -580,7 +580,7 @@ class GrayImageStack:
     # fmt: on
     def __getitem__(self, key):
         """Get pixel/patch of image stack."""
-        v = self[key]
+        v = self.imgs[key]
         if not isinstance(v, np.ndarray):
             return v
         if v.ndim == 4:
